@@ -57,6 +57,11 @@ def _dict_count(a, i):
     return a
 
 
+def _nested_mut(a, i):
+    a[0].append(i)
+    return (a[0], a[1] + 1)
+
+
 def _arr_append(a, i):
     a.append(i)
     return a
@@ -117,6 +122,7 @@ _FUNCS = {
     'acc_dict_mut': lambda: _dict_count,
     'acc_pair': lambda: (lambda a, i: (a[0] + i, a[1] + 1)),
     'acc_arr_mut': lambda: _arr_append,
+    'acc_nested_mut': lambda: _nested_mut,
     'acc_digest': lambda: (lambda a, i: (a * 7 + digest(i)) % 1009),
     # terminators (must return the seed's type)
     'term_neg': lambda: (lambda a: -a),
@@ -148,6 +154,7 @@ _SEEDS = {
     'zero': lambda: 0, 'zerof': lambda: 0.0, 'list': lambda: [], 'list_factory': lambda: list,
     'dict_factory': lambda: dict, 'pair00': lambda: (0, 0), 'neg1': lambda: -1,
     'arr_factory': lambda: (lambda: array('q')), 'one': lambda: 1,
+    'nested': lambda: ([], 0),          # an immutable container holding a mutable one: needs a DEEP copy per key
 }
 
 
@@ -272,7 +279,7 @@ FUNC_SIG = {
     'isnone': ('o', 'i'), 'digest': ('*', 'i'), 'raise_on': ('*', None),
 }
 SEED_TYPE = {'zero': 'i', 'zerof': 'f', 'list': 'x', 'list_factory': 'x', 'dict_factory': 'x', 'pair00': 't',
-             'neg1': 'i', 'arr_factory': 'x', 'one': 'i'}
+             'neg1': 'i', 'arr_factory': 'x', 'one': 'i', 'nested': 'x'}
 
 
 def out_type(node, t):
